@@ -120,9 +120,9 @@ StepClauses(T, i, ch) ==
                 V    == {a \in 1..NA(T) : m[a]}
                 rk   == e.ranks                                  \* dense rank of the reward each valid action yields (probed by the driver)
                 best == IF V = {} THEN {} ELSE
-                        CASE T.solver = "greedy"       -> {Min({a \in V : \A b \in V : rk[a] >= rk[b]})}
-                          [] T.solver = "greedy_worst" -> {Min({a \in V : \A b \in V : rk[a] <= rk[b]})}
-                          [] T.solver = "largest"      -> {Min({a \in V : \A b \in V : SizesOf(cfg)[a] >= SizesOf(cfg)[b]})}
+                        CASE e.solver = "greedy"       -> {Min({a \in V : \A b \in V : rk[a] >= rk[b]})}
+                          [] e.solver = "greedy_worst" -> {Min({a \in V : \A b \in V : rk[a] <= rk[b]})}
+                          [] e.solver = "largest"      -> {Min({a \in V : \A b \in V : SizesOf(cfg)[a] >= SizesOf(cfg)[b]})}
                           [] OTHER                     -> V
             IN   Fail("C13", "SolverNoException", e.exc = "")
             \cup Fail("C13", "ChoiceIsValidAndFollowsRule", (e.exc = "" /\ V # {}) => (e.a + 1) \in best)
